@@ -61,8 +61,14 @@ def run(ctx):
     bad = [v for v in verdicts if not v.startswith("ACCEPT")]
     win, ncases = windows(tf)
     # scheduler level: no driven run may need the stall timer
-    agg, _, _ = sc.run_sweeps(ctx, [("sched", 171, 300 if ctx.quick else 5000, ["txs=1..6", "workers=1,2,3"])], want_trace=False)
-    stalls = [c for c in agg["driver_failure"] if "stall" in c["failure"] or "deadlock" in c["failure"]]
+    agg, _, _ = sc.run_sweeps(ctx, [("sched", 171, 300 if ctx.quick else 5000, ["txs=1..6", "workers=1,2,3"]),
+                                   ("sched2", 172, 500 if ctx.quick else 8000, ["txs=2..8", "workers=2,3,4", "strat=mix2", "opts=shared,chain"])], want_trace=False)
+    # a stall / deadlock verdict, or workers polling for ever while a coordinator is parked without a
+    # token (the notification it needed was never issued)
+    def lost_wakeup(f):
+        return ("stall" in f or "deadlock" in f or
+                ("step budget" in f and re.search(r"(finality|commit):Parked:tok=false", f) is not None))
+    stalls = [c for c in agg["driver_failure"] if lost_wakeup(c["failure"])]
     broken = list(proof["problems"])
     stall_cases = [v for v in bad if v.startswith("STALL")]
     if stall_cases or stalls:
